@@ -517,6 +517,8 @@ StepLeader(n, st, c, m, rt) ==
             IN IF LTermErr(n.log, st, n.log.committed) \/ LTerm(n.log, st, n.log.committed) # n.term
                THEN [n |-> n, err |-> FALSE]
                ELSE IF IsSingleton(n) /\ n.promotable THEN [n |-> HandleReadyReadIndex(n, req, n.log.committed), err |-> FALSE]
+               \* ReadOnlyOption::LeaseBased: the leader trusts its lease and answers with its commit index at once
+               ELSE IF c.lease_read THEN [n |-> HandleReadyReadIndex(n, req, n.log.committed), err |-> FALSE]
                ELSE LET n1 == IF ctx \in DOMAIN n.ro.pending THEN n
                               ELSE [n EXCEPT !.ro = [queue |-> Append(@.queue, ctx),
                                                      pending |-> (ctx :> [from |-> m.from, index |-> n.log.committed,
